@@ -541,8 +541,8 @@ def solve_symbols(text: str, inst: list, consts: dict) -> Optional[list]:
 def _check_domain_event(ctx: Ctx, ev: dict, models: list, inst: list, stage: dict) -> list[dict]:
     out: list[dict] = []
     dom = tuple(ev["dom"])
-    rules = [t for t in stage["stmts"] if t.startswith(dom[0] + "(") or t.startswith(dom[0] + " ") or t.startswith(dom[0] + ".")]
-    base = {"event": ev, "instance": inst, "stage": [stage["name"], stage["iter"]], "step": stage["name"], "domain_rules": rules[:6]}
+    rules = [t for t in stage["stmts"] if t.startswith("__dom_")]  # all domain rules: a domain is built from other domains
+    base = {"event": ev, "instance": inst, "stage": [stage["name"], stage["iter"]], "step": stage["name"], "domain_rules": rules[:12]}
     exts = [frozenset(m.get(dom, set())) for m in models]
     ctx.counters["c20_checks"] += 1
     if len(set(exts)) > 1:
@@ -557,6 +557,17 @@ def _check_domain_event(ctx: Ctx, ev: dict, models: list, inst: list, stage: dic
         if any(m.get(pred) for m in models):
             ctx.counters["c20_nonempty_dom"] += 1
         return out
+    # chain atoms lie inside the domain: every chain predicate over this domain (named __chain_..__{min|max}_<dom>)
+    # only carries values of the domain at its last position
+    chain_preds = [p for p in (models[0].keys() if models else []) if p[0].startswith("__chain_") and (p[0].endswith("__max_" + dom[0]) or p[0].endswith("__min_" + dom[0]))]
+    for m in models[:64]:
+        for cp in chain_preds:
+            dom_vals = {t[ev["position"]] for t in m.get(dom, set())}
+            stray = sorted({t[-1] for t in m.get(cp, set())} - dom_vals)
+            ctx.counters["c20_chain_checks"] += 1
+            if stray:
+                out.append({"kind": "chain-value-outside-domain", **base, "which": cp[0], "extra": [str(x) for x in stray][:3]})
+                return out
     # order event: min / max / next over dom per group
     pos = ev["position"]
     annotated = ev["annotated"]
